@@ -4396,31 +4396,76 @@ def breakout_starred_args(source: str) -> str:
             yield node, ast.Call(func=node.func, args=args, keywords=node.keywords)
 
 
-def _convert_to_string_formatting(fstring: ast.JoinedStr) -> Tuple[str, Sequence[ast.AST]]:
-    fstring_template = ast.JoinedStr(
-        values={
-            ast.Constant(value=str),
-            ast.FormattedValue(format_spec=(None, ast.JoinedStr(values=[ast.Constant(value=str)]))),
-    })
-    if not core.match_template(fstring, fstring_template):
-        raise ValueError(f"Invalid input: {ast.dump(fstring)}")
+_PERCENT_DIRECTIVES = {-1: "%s", ord("s"): "%s", ord("r"): "%r", ord("a"): "%a"}
 
-    format_string_entries = []
+
+def _convert_to_string_formatting(fstring: ast.JoinedStr) -> Tuple[str, Sequence[ast.AST]]:
+    """The %-style format string and the arguments that the logging module renders to the text
+    of the f-string (logging formats a record as msg % args). ValueError if there are none:
+    no % directive reproduces a format spec."""
+    literals = []
+    directives = []
     format_args = []
     for entry in fstring.values:
         if isinstance(entry, ast.Constant):
-            format_string_entries.append(entry.value)
-        elif isinstance(entry, ast.FormattedValue):
-            if entry.format_spec:
-                format_spec = entry.format_spec.values[0].value
-            else:
-                format_spec = ""
-            format_string_entries.append("{" + format_spec + "}")  # This is ironic, isn't it
+            literals.append(entry.value)
+            directives.append(None)
+        elif (
+            isinstance(entry, ast.FormattedValue)
+            and entry.format_spec is None
+            and entry.conversion in _PERCENT_DIRECTIVES
+        ):
+            literals.append(None)
+            directives.append(_PERCENT_DIRECTIVES[entry.conversion])
             format_args.append(entry.value)
+        else:
+            raise ValueError("No % directive gives the same text")
 
-    format_string = ast.Constant(value="".join(format_string_entries), kind=None)
+    return _percent_format_string(literals, directives), format_args
 
-    return format_string, format_args
+
+def _percent_format_string(
+    literals: Sequence[str], directives: Sequence[str]
+) -> ast.Constant:
+    """Join literal texts and % directives. The logging module only applies % to the message if
+    there are arguments: only then a literal % must be doubled."""
+    any_directive = any(directive is not None for directive in directives)
+    entries = []
+    for literal, directive in zip(literals, directives):
+        if directive is not None:
+            entries.append(directive)
+        elif any_directive:
+            entries.append(literal.replace("%", "%%"))
+        else:
+            entries.append(literal)
+
+    return ast.Constant(value="".join(entries), kind=None)
+
+
+def _convert_format_call_to_string_formatting(call: ast.Call) -> Tuple[str, Sequence[ast.AST]]:
+    """The same for "...".format(args): every replacement field must be a plain {} (or {!s},
+    {!r}, {!a}), numbered automatically, one for every argument."""
+    if call.keywords or any(isinstance(arg, ast.Starred) for arg in call.args):
+        raise ValueError("No % directive takes a keyword")
+    literals = []
+    directives = []
+    for literal, field_name, format_spec, conversion in string.Formatter().parse(
+        call.func.value.value
+    ):
+        if literal:
+            literals.append(literal)
+            directives.append(None)
+        if field_name is None:
+            continue
+        if field_name or format_spec or conversion not in {None, "s", "r", "a"}:
+            raise ValueError("No % directive gives the same text")
+        literals.append(None)
+        directives.append("%" + (conversion or "s"))
+
+    if len(call.args) != sum(directive is not None for directive in directives):
+        raise ValueError("str.format ignores arguments that % does not")
+
+    return _percent_format_string(literals, directives), call.args
 
 
 def _logging_names(root: ast.AST) -> Collection[str]:
@@ -4501,37 +4546,28 @@ def deinterpolate_logging_args(source: str) -> str:
         args=list,
         keywords=[],
     )
-    fstring_template = ast.JoinedStr(
-        values={
-            ast.Constant(value=str),
-            ast.FormattedValue(format_spec=(None, ast.JoinedStr(values=[ast.Constant(value=str)]))),
-    })
     fmtstring_template = ast.Call(func=ast.Attribute(value=ast.Constant(value=str), attr="format"))
     for node, function_name in core.walk_wildcard(root, template):
-        if function_name == "log" and core.match_template(node.args, [object, fmtstring_template]):
-            yield node, ast.Call(
-                func=node.func,
-                args=[node.args[0], node.args[1].func.value] + node.args[1].args,
-                keywords=node.keywords + node.args[1].keywords,
-            )
-        if function_name != "log" and core.match_template(node.args, [fmtstring_template]):
-            yield node, ast.Call(
-                func=node.func,
-                args=[node.args[0].func.value] + node.args[0].args,
-                keywords=node.keywords + node.args[0].keywords,
-            )
-        if function_name == "log" and core.match_template(node.args, [object, fstring_template]):
-            format_string, format_args = _convert_to_string_formatting(node.args[1])
-            yield node, ast.Call(
-                func=node.func,
-                args=[node.args[0], format_string] + format_args,
-                keywords=node.keywords,
-            )
-        if function_name != "log" and core.match_template(node.args, [fstring_template]):
-            format_string, format_args = _convert_to_string_formatting(node.args[0])
-            yield node, ast.Call(
-                func=node.func, args=[format_string] + format_args, keywords=node.keywords
-            )
+        # logging.log(level, msg), logging.info(msg): no further arguments
+        message_index = 1 if function_name == "log" else 0
+        if len(node.args) != message_index + 1 or isinstance(node.args[0], ast.Starred):
+            continue
+        message = node.args[message_index]
+        try:
+            if core.match_template(message, fmtstring_template):
+                format_string, format_args = _convert_format_call_to_string_formatting(message)
+            elif isinstance(message, ast.JoinedStr):
+                format_string, format_args = _convert_to_string_formatting(message)
+            else:
+                continue
+        except ValueError:
+            continue
+
+        yield node, ast.Call(
+            func=node.func,
+            args=node.args[:message_index] + [format_string] + list(format_args),
+            keywords=node.keywords,
+        )
 
 
 def _is_free_identifier(name: str) -> bool:
